@@ -82,25 +82,41 @@ impl AsyncWrite for ChoiceStream {
         if n == 0 {
             return Poll::Ready(Ok(0));
         }
-        // alternatives: 0 = accept all, 1..n-1 = accept k, n = Pending (if allowed and not twice in a row)
+        // alternatives: 0 = accept all, then accept k for every k < n (writes of more than 512 bytes: k on a grid of
+        // sizes an implementation might treat specially - powers of two and their neighbours, 1, n - 1), then
+        // Pending (if allowed and not twice in a row), then a transient error
+        let ks: Vec<usize> = if n <= 512 {
+            (1..n).collect()
+        } else {
+            let mut g: Vec<usize> = vec![1, n - 1, n / 2];
+            let mut p = 512usize;
+            while p < n {
+                g.extend([p - 1, p, p + 1]);
+                p *= 2;
+            }
+            g.retain(|k| *k >= 1 && *k < n);
+            g.sort_unstable();
+            g.dedup();
+            g
+        };
         let pend = w.allow_pending && !w.last_w_pending;
         let err = w.allow_error && !w.last_w_error;
-        let alts = n + pend as usize + err as usize;
-        let c = w.chooser.choose(alts, |c| if c < n { format!("write:accept {c} of {n}") } else if c == n && pend { format!("write:pending at {n}-byte write") } else { format!("write:error at {n}-byte write") });
-        if c >= n && !(c == n && pend) {
+        let alts = 1 + ks.len() + pend as usize + err as usize;
+        let c = w.chooser.choose(alts, |c| if c == 0 { format!("write:accept all {n}") } else if c <= ks.len() { format!("write:accept {} of {n}", ks[c - 1]) } else if c == ks.len() + 1 && pend { format!("write:pending at {n}-byte write") } else { format!("write:error at {n}-byte write") });
+        if c > ks.len() && !(c == ks.len() + 1 && pend) {
             w.last_w_error = true;
             w.errors_w += 1;
             return Poll::Ready(Err(std::io::Error::from(std::io::ErrorKind::TimedOut)));
         }
         w.last_w_error = false;
-        if c == n {
+        if c == ks.len() + 1 {
             w.last_w_pending = true;
             w.pendings_w += 1;
             cx.waker().wake_by_ref();
             return Poll::Pending;
         }
         w.last_w_pending = false;
-        let k = if c == 0 { n } else { c };
+        let k = if c == 0 { n } else { ks[c - 1] };
         if k < n {
             w.partial_accepts += 1;
         }
@@ -561,6 +577,17 @@ pub fn run_with(cli: Cli, extra: &dyn Fn(&Report)) -> ! {
             } else {
                 vec![(vec![17, 5, 40], 2), (vec![40, 17], 2), (vec![5, 17, 5], 2), (vec![30, 30, 30], 1)]
             };
+            // frames of several KiB (a long Disconnect message, a profile with textures): whatever an
+            // implementation does in blocks of a power of two shows here
+            let long: Vec<(Vec<usize>, usize)> = if !dir.starts_with("write") || si > 0 {
+                long
+            } else if thorough {
+                long.into_iter().chain([(vec![9_000], 2), (vec![4_097, 5_000], 2), (vec![20_000], 1)]).collect()
+            } else if dir == "write" {
+                long.into_iter().chain([(vec![9_000], 1)]).collect()
+            } else {
+                long
+            };
             for (msgs, bound) in long {
                 for switch in 0..=msgs.len() {
                     if si > 0 && switch > 1 {
@@ -607,6 +634,63 @@ pub fn run_with(cli: Cli, extra: &dyn Fn(&Report)) -> ! {
                     replay: json!({"connection": label}),
                     weight: 5,
                 });
+            }
+        }
+    }
+
+    // A client that misbehaves once the stream is encrypted (another packet where Login Acknowledged or Client
+    // Information is due, garbage, an early hang-up), an authentication service that fails, a player nobody can be
+    // routed: whatever the router still sends - a notice, nothing - continues the one CFB8 stream the client has
+    // been decrypting since its Encryption Response (the client model decrypts everything with one cipher).
+    {
+        use crate::sim::{st, Act, AuthPlan, Case, Login, StratPlan, When};
+        let login = Login::default().steps();
+        let upto = |n: usize| login[..n].to_vec();
+        let mut cases: Vec<(String, Case)> = vec![];
+        for (label, act) in [
+            ("a Cookie Response instead of Login Acknowledged", Act::Frame { id: 4, body: common::refs::codec::W::new().string("passage:session").bool(false).done() }),
+            ("a Keep Alive instead of Login Acknowledged", Act::Frame { id: 4, body: 7u64.to_be_bytes().to_vec() }),
+            ("an unknown packet id instead of Login Acknowledged", Act::Frame { id: 0x55, body: vec![1, 2, 3] }),
+            ("a Login Start again instead of Login Acknowledged", Act::LoginStart { name: "Again".into(), uuid: 5 }),
+            ("a length prefix of zero instead of Login Acknowledged", Act::Raw(vec![0])),
+            ("the end of the stream instead of Login Acknowledged", Act::Eof),
+        ] {
+            // (steps 0..4: handshake, login start, session cookie, encryption response)
+            let mut c = Case::default();
+            c.script = upto(4);
+            c.script.push(st(When::Idle, act));
+            cases.push((label.to_string(), c));
+        }
+        for (label, act) in [("a Login Start where Client Information is due", Act::LoginStart { name: "Again".into(), uuid: 5 }), ("an unknown packet id where Client Information is due", Act::Frame { id: 0x55, body: vec![9; 40] }), ("a length prefix beyond the limit where Client Information is due", Act::Raw(common::refs::codec::varint(2_000_000)))] {
+            let mut c = Case::default();
+            c.script = upto(5);
+            c.script.push(st(When::Idle, act));
+            cases.push((label.to_string(), c));
+        }
+        let mut refused = Case::default();
+        refused.script = login.clone();
+        refused.adapters.auth = AuthPlan::Err;
+        cases.push(("the authentication service fails".into(), refused));
+        let mut nowhere = Case::default();
+        nowhere.script = login.clone();
+        nowhere.adapters.strat = StratPlan::None;
+        cases.push(("no target is chosen".into(), nowhere));
+        for (label, mut c) in cases {
+            for one_byte in [false, true] {
+                if one_byte {
+                    c.transport.read_chunk = Some(1);
+                    c.transport.write_chunk = Some(1);
+                }
+                let obs = crate::sim::run(&c);
+                cn.runs.fetch_add(1, Ordering::Relaxed);
+                if obs.garbled.is_some() || obs.has("Unknown") || obs.partial_tail > 0 {
+                    rep.violation(Violation {
+                        key: "connection:what-the-router-sends-last-is-not-the-same-stream".into(),
+                        text: format!("{label}{}: the client, decrypting everything since its Encryption Response with one cipher, reads {:?} - undecodable {:?}, {} dangling bytes (result {:?})", if one_byte { " (one-byte transport)" } else { "" }, obs.kinds(), obs.garbled, obs.partial_tail, obs.result),
+                        replay: json!({"connection": label}),
+                        weight: 6,
+                    });
+                }
             }
         }
     }
